@@ -54,5 +54,7 @@ def native_replay(u, h, vals, root, build):
         p = subprocess.run([exe, u['name'], h['name']] + hexvals, capture_output=True, text=True, timeout=120)
     except subprocess.TimeoutExpired:
         return {'ran': True, 'reproduced': False, 'error': 'native replay timed out'}
+    if p.returncode not in (0, 101):
+        return {'ran': False, 'exit': p.returncode, 'error': 'replay binary could not run this harness: ' + (p.stderr or p.stdout)[-500:]}
     return {'ran': True, 'reproduced': p.returncode == 101, 'exit': p.returncode,
             'cmd': ' '.join([exe, u['name'], h['name']] + hexvals), 'stdout': p.stdout[-1500:], 'stderr': p.stderr[-1500:]}
